@@ -171,7 +171,9 @@ type errorExtra struct {
 // When debug is false, stack traces and file paths are omitted to avoid leaking
 // implementation details to clients.
 func buildErrorExtra(err error, debug bool) string {
-	errType := fmt.Sprintf("%T", err)
+	// Errors that are not RpcError values or typed framework errors go out as
+	// RuntimeError (docs/guide/errors.md), never as a Go type name.
+	errType := "RuntimeError"
 
 	// Prefer the wire-stable class name for typed errors.
 	switch e := err.(type) {
